@@ -278,15 +278,26 @@ fn run_tunnel_rows(ctx: &mut Ctx, _rng: &mut Rng, index: u64) {
     let midx = all[pos];
     let cfg = decode(midx);
     let exp = expected(&cfg);
-    let handle: Arc<Mutex<Option<std::thread::JoinHandle<ServerResult>>>> = Arc::new(Mutex::new(None));
-    let h2 = handle.clone();
-    let world = World::install(move |_, _, trace| {
-        let (bridge, h) = Bridge::new(b"HTTP/1.1 200 Connection established\r\n\r\n".to_vec(), false, ServerSpec { cert: "good", response: OK_RESPONSE.to_vec() }, trace.clone());
-        *h2.lock().unwrap() = Some(h);
-        Answer::Custom(Box::new(bridge))
-    });
-    let res = builder(&cfg).send();
-    let server = handle.lock().unwrap().take().map(|h| h.join().expect("tls server thread"));
+    let mut attempt = 0;
+    let (world, res, server) = loop {
+        let handle: Arc<Mutex<Option<std::thread::JoinHandle<ServerResult>>>> = Arc::new(Mutex::new(None));
+        let h2 = handle.clone();
+        let world = World::install(move |_, _, trace| {
+            let (bridge, h) = Bridge::new(b"HTTP/1.1 200 Connection established\r\n\r\n".to_vec(), false, ServerSpec { cert: "good", response: OK_RESPONSE.to_vec() }, trace.clone());
+            *h2.lock().unwrap() = Some(h);
+            Answer::Custom(Box::new(bridge))
+        });
+        let res = builder(&cfg).send();
+        let server = handle.lock().unwrap().take().map(|h| h.join().expect("tls server thread"));
+        // (a transport failure that both ends of the bridge saw is what starvation looks like: once more)
+        if attempt == 0 && res.as_ref().err().map_or(false, |e| crate::bridge::starved(&format!("{e:?}"), server.as_ref())) {
+            attempt += 1;
+            ctx.count("bridged_cases_rerun_after_a_transport_failure", 1);
+            drop(world);
+            continue;
+        }
+        break (world, res, server);
+    };
     if let Err(e) = &res {
         ctx.violation("send-failed", format!("tunnelled: {e:?}; server={:?}; url={} proxy={:?}", server.as_ref().map(|s| &s.handshake_error), cfg.url, cfg.proxy));
         return;
